@@ -89,6 +89,21 @@ CLAIMED = {
    text="Theorems C15_renumber_ids, C15_rename_names, C15_rename_and_renumber (Properties/C15.v) for all schemas. Tie: each conformant scenario and each single-fault mutant is rendered all-by-id, all-by-alias, mixed per occurrence, and consistently renumbered/renamed; the verdicts must agree with each other and with the model.",
    note="Trusted: coqc kernel + vm_compute (case files); scenario generator/renderer/mutators (harness/scenario.py, mutators.py); Model/Rules.v is tied to the Python by differential testing bounded by the generator, not by proof about the Python; T1 default-value table. Known finding (C10/C15): checkpoint composite duplicates under different spelling.",
    design="6/C15"),
+ "C16": dict(
+   technique="Coq proof over a Gallina model of namespacing (id shift) and stitching (combine) + whole validator with generated import files vs the Coq model",
+   text="23 theorems in Properties/C16.v about Model/Imports.v: C16_bad_import_rejected (unreadable / invalid import, target not in the imported schema, added dependency not a native checkpoint), C16_namespacing_imported/_denotes/_native and C16_shift_valid (an imported valid schema stays valid in its namespace; native lookups unchanged), C16_connection_adds / _adds_checkpoint / _checkpoint_holders / _other_actions (one connection adds exactly the dependencies of the added checkpoint to its target and to nothing else; exact iff per stitching step, C16_every_step_fresh shows the hypotheses hold at every step of combine; for the whole combine a lower bound C16_connection_adds_combined + C16_combined_keeps: the closed-form iff for interacting connections is not proved), C16_cycle_through_connection_rejected, C16_scope_through_connection. Tie: importing scenarios with 1-2 generated importable files, schema-qualified references in both spellings, 0-2 connections per import on actions with/without checkpoint and on checkpoints, and 7 kinds of single faults.",
+   note="Trusted: coqc kernel + vm_compute (case files); scenario generator/renderer/mutators; Model/Rules.v and Model/Imports.v are tied to the Python by differential testing bounded by the generator. Import depth 1 in generated cases (recursive imports only through shipped fixtures). Known finding: rules about imported entities are not re-validated in the importing context.",
+   design="6/C16"),
+ "C08": dict(
+   technique="Coq proof by exhaustive reflection over tables regenerated from the source (method, aggregation, initial values) + Coq proof that acceptance by the pipeline model is exactly the declarative typing rules + whole validator vs Coq model on pipeline scenarios, faults and a cell family",
+   text="Theorems C08_method_table, C08_agg_table, C08_initial, C08_lists_never_null (Properties/C08.v: the implementation's tables, tabulated on their whole finite domains from the current source, equal Combine / Aggregate / InitOk) and C08_pipeline_typed, C08_initial_values, C08_traversals, C08_applications, C08_outputs, C08_verdict_is_rules, C08_step_is_rule, C08_step_type_is_rule (Properties/C08_pipeline.v: acceptance by Model/PipeRules.v holds exactly when every variable, traversal, application (source route, step, method, SET-first rule, filter clauses incl. nested) and output (incl. object type) satisfies the declarative rule, so well-typed pipelines are never rejected). Tie: conformant scenarios with 0-2 pipelines (traversal depth 3, up to 12 siblings, every route / step / method), 15+ typing faults, and a systematic (variable type, initial, method, source type, step) cell family (all 26400 cells in the thorough tier).",
+   note="Trusted: coqc kernel + vm_compute (case files); harness/pipes.py generator / renderer / mutators; Model/PipeRules.v is tied to the Python by differential testing bounded by the generator; T1 tables by tools/gen_tables.py. Sort keys are not checked by the implementation and not modelled.",
+   design="6/C08"),
+ "C09": dict(
+   technique="Coq proof (scope visibility = list prefix; the dotted-decimal string test the code uses decides it, plain startswith does not; acceptance <=> scoping rules) + whole validator vs Coq model on traversal trees, scoping faults and a placement family",
+   text="Theorems C09_visible_is_prefix, C09_scope_strings(_joined/_decimal), C09_decimal_notation, C09_plain_startswith_wrong, C09_scoped, C09_thread_variable, C09_no_redeclaration, C09_never_assigned, C09_own_object, C09_outputs_unsettable, C09_no_checkpoint_on_written, C09_never_rejected (Properties/C09.v) about Model/PipeRules.v. Tie: conformant pipeline scenarios incl. traversal index >= 10, scoping faults (out-of-scope read/write, redeclaration incl. thread variable names, assignment to loop / thread / traversed variables, reading the own object, writing settable attributes, checkpoint on a written attribute) and all 128 (declaration scope, use scope) placements in the thorough tier.",
+   note="Trusted: coqc kernel + vm_compute (case files); harness/pipes.py generator / renderer / mutators; Model/PipeRules.v is tied to the Python by differential testing bounded by the generator; T1 tables by tools/gen_tables.py. Known finding (C10/C15 class): sibling traversal sources are compared as text.",
+   design="6/C09"),
 }
 
 PENDING_REASON = "check under construction in this session; not yet claimed"
